@@ -30,6 +30,8 @@ type Engine struct {
 	specs *SpecDB
 	nsym  int
 
+	chanFieldEscapes map[*types.Var]bool // channel-typed fields that are closed, copied or passed on somewhere
+	goLedgerOn     bool // every go statement must be acknowledged by an anchor
 	nullableFields map[*types.Var]bool  // fields compared with nil somewhere in the module
 	mayNilFuncs    map[*types.Func]bool // module funcs that return a literal nil pointer
 	abstracted     map[string]bool      // names of calls abstracted (for evidence)
